@@ -18,12 +18,12 @@ LEVEL = 'exploration'
 TECHNIQUE = ('stateful / history-based: Hypothesis-generated operation sequences over the public edit API (handles into '
              'nested sub-edits, bursts of refinement without reads) and bounded-exhaustive interleavings on fixed pairs, '
              'x quiet/colour printer settings, compared with a reference run under the canonical driver')
-RULE = ("[also: every has_non_zero_cost() answer given during a history is compared with the edit's final cost; a multiset family (lists read as multisets, with duplicates); sub-edit listings repeated within a history must name the same edits; a family of lists of records with long keys exercises cost ties in the last alignment cell; a high-volume 'light' job (record lists and lists of variants of one or two base records) compares only three drivers: refine to the end, list sub-edits first then refine, TreeNode.diff] A case is (pair, options, printer config {quiet, colour}, history). The history is a list of operations "
+RULE = ("[also: a 'lazy' operation starts a listing (edits() is a generator), takes 0-3 items and leaves it suspended while the history continues; finished at the end it must name exactly the sub-edits a fresh listing names; every has_non_zero_cost() answer given during a history is compared with the edit's final cost; a multiset family (lists read as multisets, with duplicates); sub-edit listings repeated within a history must name the same edits; a family of lists of records with long keys exercises cost ties in the last alignment cell; a high-volume 'light' job (record lists and lists of variants of one or two base records) compares only three drivers: refine to the end, list sub-edits first then refine, TreeNode.diff] A case is (pair, options, printer config {quiet, colour}, history). The history is a list of operations "
         "[bounds | tighten xk with no read in between | is_complete | valid | has_non_zero_cost | edits (sub-edits join "
         "the handle pool, so nested edits are driven directly and out of order) | edits twice], each applied to a handle "
         "drawn from the pool (initially the root edit). Generated: up to 30 (quick) / 80 (thorough) operations with rule "
         "weights favouring refinement bursts, over C01 pairs and a nested-list generator (lists of lists of lists). "
-        "Bounded exhaustive: for 41 fixed small pairs all sequences of the five root operations up to length 4 (quick) / "
+        "Bounded exhaustive: for 41 fixed small pairs all sequences of the six root operations (bounds, tighten, is_complete, edits, has_non_zero_cost, lazy listing) up to length 4 for the first 20 pairs and 3 for the others (quick) / "
         "5 (thorough). History-free sub-check: diff(), edited_cost(), get_all_edits() under every printer configuration, and their totals against the canonical driver's final cost. "
         "Oracle: no exception escapes any operation; after finishing with the canonical driver the final cost and the "
         "script signature equal those of a fresh copy refined by the canonical driver under the default printer. "
@@ -42,8 +42,8 @@ MANIFEST_NOTE = "Trusts the reference run (canonical driver, default printer) on
 DESIGN_REF = 'DESIGN.md section 3, C05'
 SHRINK = {'docs': ['a', 'b'], 'lists': ['history'], 'enums': {'ds': 'auto', 'le': 'on', 'quiet': False, 'color': False}}
 
-OPS = ['bounds', 'tighten', 'is_complete', 'valid', 'non_zero', 'edits', 'edits2']
-ROOT_OPS = ['bounds', 'tighten', 'is_complete', 'edits', 'non_zero']
+OPS = ['bounds', 'tighten', 'is_complete', 'valid', 'non_zero', 'edits', 'edits2', 'lazy']
+ROOT_OPS = ['bounds', 'tighten', 'is_complete', 'edits', 'non_zero', 'lazy']
 
 FIXED_PAIRS = [
     ([1, 2, 3], [1, 3]), ([[1, 2], [3]], [[1], [2, 3]]), ({'a': 1, 'b': 2}, {'a': 1, 'c': 2}), ('abc', 'abd'),
@@ -72,9 +72,9 @@ def histories(draw, max_ops):
     ops = []
     for _ in range(n):
         op = draw(st.sampled_from(['tighten', 'tighten', 'tighten', 'bounds', 'is_complete', 'valid', 'non_zero',
-                                   'edits', 'edits', 'edits2']))
+                                   'edits', 'edits', 'edits2', 'lazy']))
         h = draw(st.integers(0, 40))
-        k = draw(st.integers(1, 6)) if op == 'tighten' else 1
+        k = draw(st.integers(1, 6)) if op == 'tighten' else (draw(st.integers(0, 3)) if op == 'lazy' else 1)
         ops.append([op, h, k])
     return ops
 
@@ -119,7 +119,7 @@ def run_job(job, seed, sink):
     if job['kind'] == 'exhaustive':
         i = 0
         for pi, (a, b) in enumerate(FIXED_PAIRS):
-            for n in range(job['maxlen'] + 1):
+            for n in range(job['maxlen'] + (1 if pi < 20 else 0)):        # the second half of the pairs one step shorter
                 for seq in itertools.product(ROOT_OPS, repeat=n):
                     if i % 16 == job['shard']:
                         quiet = (i // 16) % 2 == 1
@@ -203,6 +203,7 @@ def check(case):
             e = a.edits(b)
         pool = [e]
         answers = []
+        suspended = []
         burst = early_edits = False
         for step, (op, h, k) in enumerate(history):
             x = pool[h % len(pool)]
@@ -220,6 +221,18 @@ def check(case):
                     _ = x.valid
                 elif op == 'non_zero':
                     answers.append((step, x, x.has_non_zero_cost()))
+                elif op == 'lazy':
+                    # edits() is a generator: start a listing, take k items and leave it suspended while the history goes on;
+                    # it is finished at the end and must then have named every sub-edit exactly once
+                    if isinstance(x, CompoundEdit) and len(suspended) < 8:
+                        g = x.edits()
+                        got = []
+                        for _ in range(k):
+                            try:
+                                got.append(next(g))
+                            except StopIteration:
+                                break
+                        suspended.append((step, x, g, got))
                 elif op in ('edits', 'edits2'):
                     if isinstance(x, CompoundEdit):
                         if not x.is_complete():
@@ -241,6 +254,17 @@ def check(case):
             common.full_tighten(e)
             probs = Problems()
             rec = walk(e, probs)
+        with guard('finish the suspended listings'):
+            for step, x, g, got in suspended:
+                got = got + list(g)
+                final = list(x.edits())
+
+                def brief2(es):
+                    return sorted((type(q).__name__, repr(plain(q.from_node))) for q in es)
+                if brief2(got) != brief2(final):
+                    out.fail(f'suspended-listing-differs:{type(x).__name__}', f"history step {step}: a listing of {type(x).__name__}.edits() started there and "
+                                                                              f"finished at the end names {brief2(got)[:6]}, a fresh listing names {brief2(final)[:6]}")
+                    break
         # whenever it was asked, has_non_zero_cost() must have told whether the edit's final cost is above zero
         with guard('finish the edits that were asked has_non_zero_cost()'):
             for step, x, ans in answers:
